@@ -82,6 +82,7 @@ THEOREMS = [
     "Verif.C07.define_tether_calibrated",
     "Verif.C07.ranges_legacy_eq",
     "Verif.C07.good_runOps",
+    "Verif.C07.program_image_refines",
 ]
 RULE = (
     "corpus (F2 inputs) + exhaustive small scope on real TIFF stacks of n<=6 frames of 4x5 pixels: every slice with "
